@@ -55,6 +55,40 @@ def divisor_exprs(fn, pidx, kind):
     """ids of local variables that hold the divisor's size / value (flow-insensitive closure)"""
     pid = fn["params"][pidx]["id"]
     derived = set()
+    # local pointers that name the divisor (mpz_srcptr dd = d) or, for an mpq divisor, its numerator (num2 = mpq_numref (op2)): every
+    # definition of the local must be that expression
+    palias = {}
+
+    def names_divisor(e):
+        while isinstance(e, dict) and e.get("k") in ("cast", "paren"):
+            e = e["e"]
+        if not isinstance(e, dict):
+            return False
+        if kind == "mpq":
+            if e.get("k") == "unop" and e["op"] == "&":
+                m = e["e"]
+                while isinstance(m, dict) and m.get("k") in ("cast", "paren"):
+                    m = m["e"]
+                if isinstance(m, dict) and m.get("k") == "member" and m["field"] == "_mp_num":
+                    b = base_var(m)
+                    return b is not None and b["id"] == pid
+            return False
+        return kind in ("mpz", "mpf") and e.get("k") == "var" and e["id"] == pid
+    if kind in ("mpz", "mpq", "mpf"):
+        defs = collections.defaultdict(list)
+        for b in fn["blocks"]:
+            for el in b["elems"]:
+                def pa(n):
+                    if n.get("k") == "binop" and n["op"] == "=" and n["l"].get("k") == "var" and "*" in n["l"].get("ct", ""):
+                        defs[n["l"]["id"]].append(n["r"])
+                    if n.get("k") == "decl":
+                        for d in n["decls"]:
+                            if "init" in d and "*" in d["var"].get("ct", ""):
+                                defs[d["var"]["id"]].append(d["init"])
+                sa.walk(el["e"], pa)
+        for v, rs in defs.items():
+            if v != pid and rs and all(names_divisor(r) for r in rs):
+                palias[v] = True
 
     def from_div(e):
         """does e read the divisor's size (mpz/mpq/mpf) or value (ui)?"""
@@ -72,6 +106,8 @@ def divisor_exprs(fn, pidx, kind):
                     if b is not None and b["id"] == pid:
                         if kind != "mpq" or "_mp_num" in json.dumps(n):
                             hit.append(1)
+                    elif b is not None and b["id"] in palias:
+                        hit.append(1)
         sa.walk(e, f)
         return bool(hit)
     changed = True
@@ -288,7 +324,7 @@ def run(prop="C02", tier="quick"):
     for cols in spec_tsv("division_api.tsv", 4):
         family[cols[0]] = (int(cols[1]), cols[2])
     fix = {"fix_div_noguard": (2, "ui"), "fix_div_late_guard": (2, "ui"), "fix_div_good": (2, "ui"), "fix_div_deleg": (2, "mpz"),
-           "fix_div_abs_lt1": (2, "mpz"), "fix_div_signed_lt1": (2, "mpz")}
+           "fix_div_abs_lt1": (2, "mpz"), "fix_div_signed_lt1": (2, "mpz"), "fix_div_alias_good": (2, "mpz"), "fix_div_alias_bad": (2, "mpz")}
     byname = {}
     for path, fn in ex.functions():
         if fn["name"] in family or fn["name"] in fix:
@@ -308,7 +344,7 @@ def run(prop="C02", tier="quick"):
     res["findings"] = [f for f in res["findings"] if f.file != FIXTURE]
     res["samples"] = [s for s in res["samples"] if not s["function"].startswith("fix_")]
     exp = {"fix_div_noguard": "no-guard", "fix_div_late_guard": "unguarded", "fix_div_good": None, "fix_div_deleg": None,
-           "fix_div_abs_lt1": None, "fix_div_signed_lt1": "no-guard"}
+           "fix_div_abs_lt1": None, "fix_div_signed_lt1": "no-guard", "fix_div_alias_good": None, "fix_div_alias_bad": "no-guard"}
     for fname, sig in exp.items():
         got = [f.signature for f in fx if f.function == fname]
         if sig is None and got:
@@ -318,6 +354,6 @@ def run(prop="C02", tier="quick"):
     res["stats"]["entry_points"] -= len(fix)
     res["stats"] = dict(res["stats"])
     res["obligations"] = res["stats"]["entry_points"] + res["stats"].get("dangerous_ops", 0)
-    res["notes"].append("fixtures: 3 positive fired, 3 negative silent")
+    res["notes"].append("fixtures: 4 positive fired, 4 negative silent")
     res["exhaustive"] = True
     return res
